@@ -811,6 +811,9 @@ class World:
                 for tb in tables:
                     r = prog.resolve_name_expr(fi.module, tb) if isinstance(tb, (ast.Name, ast.Attribute)) else None
                     table = r[1].consts.get(r[2]) if r and r[0] == "const" else None
+                    if table is not None and not isinstance(table, ast.Dict):
+                        from .astutil import as_dict_literal
+                        table = as_dict_literal(prog, r[1], table)
                     if isinstance(table, ast.Dict) and table.values:
                         for v in table.values:
                             rv = prog.resolve_name_expr(r[1], v)
@@ -890,6 +893,9 @@ class World:
             table = None
             if r and r[0] == "const":
                 table = r[1].consts.get(r[2])
+                if table is not None and not isinstance(table, ast.Dict):
+                    from .astutil import as_dict_literal
+                    table = as_dict_literal(prog, r[1], table)
             if isinstance(table, ast.Dict) and table.values:
                 for v in table.values:
                     rv = prog.resolve_name_expr(r[1], v)
